@@ -1,0 +1,222 @@
+//go:build verif
+
+// Contracts for package common/reedsolomon, read by the govc verification-condition generator in /verif.
+// Comments only.
+
+package reedsolomon
+
+// ---------------------------------------------------------------- GF(2^m): the tables are the orbit of multiplication by x
+// xtime(x, p, n): x times the generator 2 in GF(n) with primitive polynomial p (carry-less doubling, reduced)
+//@ spec func xtime(x int, p int, n int) int = 2*x >= n ? ((2*x) ^ p) & (n - 1) : 2*x
+
+// for each of the six fields: exp[0] = 1, exp[i+1] = xtime(exp[i]), every exp[i] is a non-zero field element, and
+// log inverts exp on 0..size-2 (hence the orbit has full period size-1 and exp enumerates the non-zero elements)
+//@ lemma fieldTables12(i int)
+//@   property C04
+//@   globals GenericGF_AZTEC_DATA_12
+//@   mode bv
+//@   proof cases i 0 4094
+//@   let f = GenericGF_AZTEC_DATA_12
+//@   ensures f != nil && f.size == 4096 && f.primitive == 0x1069 && len(f.expTable) == 4096 && len(f.logTable) == 4096 && f.expTable[0] == 1
+//@   ensures f.expTable[i+1] == xtime(f.expTable[i], f.primitive, f.size) && 1 <= f.expTable[i] && f.expTable[i] < f.size && f.logTable[f.expTable[i]] == i
+//@ lemma fieldTables10(i int)
+//@   property C04
+//@   globals GenericGF_AZTEC_DATA_10
+//@   mode bv
+//@   proof cases i 0 1022
+//@   let f = GenericGF_AZTEC_DATA_10
+//@   ensures f != nil && f.size == 1024 && f.primitive == 0x409 && len(f.expTable) == 1024 && len(f.logTable) == 1024 && f.expTable[0] == 1
+//@   ensures f.expTable[i+1] == xtime(f.expTable[i], f.primitive, f.size) && 1 <= f.expTable[i] && f.expTable[i] < f.size && f.logTable[f.expTable[i]] == i
+//@ lemma fieldTables6(i int)
+//@   property C04
+//@   globals GenericGF_AZTEC_DATA_6
+//@   mode bv
+//@   proof cases i 0 62
+//@   let f = GenericGF_AZTEC_DATA_6
+//@   ensures f != nil && f.size == 64 && f.primitive == 0x43 && len(f.expTable) == 64 && len(f.logTable) == 64 && f.expTable[0] == 1
+//@   ensures f.expTable[i+1] == xtime(f.expTable[i], f.primitive, f.size) && 1 <= f.expTable[i] && f.expTable[i] < f.size && f.logTable[f.expTable[i]] == i
+//@ lemma fieldTables4(i int)
+//@   property C04
+//@   globals GenericGF_AZTEC_PARAM
+//@   mode bv
+//@   proof cases i 0 14
+//@   let f = GenericGF_AZTEC_PARAM
+//@   ensures f != nil && f.size == 16 && f.primitive == 0x13 && len(f.expTable) == 16 && len(f.logTable) == 16 && f.expTable[0] == 1
+//@   ensures f.expTable[i+1] == xtime(f.expTable[i], f.primitive, f.size) && 1 <= f.expTable[i] && f.expTable[i] < f.size && f.logTable[f.expTable[i]] == i
+//@ lemma fieldTablesQR(i int)
+//@   property C04
+//@   globals GenericGF_QR_CODE_FIELD_256
+//@   mode bv
+//@   proof cases i 0 254
+//@   let f = GenericGF_QR_CODE_FIELD_256
+//@   ensures f != nil && f.size == 256 && f.primitive == 0x11D && f.generatorBase == 0 && len(f.expTable) == 256 && len(f.logTable) == 256 && f.expTable[0] == 1
+//@   ensures f.expTable[i+1] == xtime(f.expTable[i], f.primitive, f.size) && 1 <= f.expTable[i] && f.expTable[i] < f.size && f.logTable[f.expTable[i]] == i
+//@ lemma fieldTablesDM(i int)
+//@   property C04 C08
+//@   globals GenericGF_DATA_MATRIX_FIELD_256
+//@   mode bv
+//@   proof cases i 0 254
+//@   let f = GenericGF_DATA_MATRIX_FIELD_256
+//@   ensures f != nil && f.size == 256 && f.primitive == 0x12D && f.generatorBase == 1 && len(f.expTable) == 256 && len(f.logTable) == 256 && f.expTable[0] == 1
+//@   ensures f.expTable[i+1] == xtime(f.expTable[i], f.primitive, f.size) && 1 <= f.expTable[i] && f.expTable[i] < f.size && f.logTable[f.expTable[i]] == i
+
+// every non-zero element x has a logarithm in 0..size-2 and exp(log x) == x  (exp and log are inverse bijections)
+//@ lemma fieldLog12(x int)
+//@   property C04
+//@   globals GenericGF_AZTEC_DATA_12
+//@   mode bv
+//@   proof cases x 1 4095
+//@   let f = GenericGF_AZTEC_DATA_12
+//@   ensures 0 <= f.logTable[x] && f.logTable[x] <= 4094 && f.expTable[f.logTable[x]] == x
+//@ lemma fieldLog10(x int)
+//@   property C04
+//@   globals GenericGF_AZTEC_DATA_10
+//@   mode bv
+//@   proof cases x 1 1023
+//@   let f = GenericGF_AZTEC_DATA_10
+//@   ensures 0 <= f.logTable[x] && f.logTable[x] <= 1022 && f.expTable[f.logTable[x]] == x
+//@ lemma fieldLog6(x int)
+//@   property C04
+//@   globals GenericGF_AZTEC_DATA_6
+//@   mode bv
+//@   proof cases x 1 63
+//@   let f = GenericGF_AZTEC_DATA_6
+//@   ensures 0 <= f.logTable[x] && f.logTable[x] <= 62 && f.expTable[f.logTable[x]] == x
+//@ lemma fieldLog4(x int)
+//@   property C04
+//@   globals GenericGF_AZTEC_PARAM
+//@   mode bv
+//@   proof cases x 1 15
+//@   let f = GenericGF_AZTEC_PARAM
+//@   ensures 0 <= f.logTable[x] && f.logTable[x] <= 14 && f.expTable[f.logTable[x]] == x
+//@ lemma fieldLogQR(x int)
+//@   property C04
+//@   globals GenericGF_QR_CODE_FIELD_256
+//@   mode bv
+//@   proof cases x 1 255
+//@   let f = GenericGF_QR_CODE_FIELD_256
+//@   ensures 0 <= f.logTable[x] && f.logTable[x] <= 254 && f.expTable[f.logTable[x]] == x
+//@ lemma fieldLogDM(x int)
+//@   property C04
+//@   globals GenericGF_DATA_MATRIX_FIELD_256
+//@   mode bv
+//@   proof cases x 1 255
+//@   let f = GenericGF_DATA_MATRIX_FIELD_256
+//@   ensures 0 <= f.logTable[x] && f.logTable[x] <= 254 && f.expTable[f.logTable[x]] == x
+
+// ---------------------------------------------------------------- field operations against the tables
+// wfGF: the representation invariant established for the six fields by the lemmas above
+//@ pred wfGF(f *GenericGF) = f.size >= 2 && len(f.expTable) == f.size && len(f.logTable) == f.size && (forall i int :: 0 <= i && i < f.size ==> 0 <= f.expTable[i] && f.expTable[i] < f.size) && (forall x int :: 1 <= x && x < f.size ==> 0 <= f.logTable[x] && f.logTable[x] <= f.size - 2)
+//@ spec func tmul(f *GenericGF, a int, b int) int = (a == 0 || b == 0) ? 0 : f.expTable[(f.logTable[a] + f.logTable[b]) % (f.size - 1)]
+
+//@ func (this *GenericGF) Multiply(a int, b int) (r int)
+//@   property C04
+//@   requires wfGF(this) && 0 <= a && a < this.size && 0 <= b && b < this.size
+//@   ensures r == tmul(this, a, b) && 0 <= r && r < this.size
+//@   modifies nothing
+
+//@ func (this *GenericGF) Inverse(a int) (r int, e error)
+//@   property C04
+//@   requires wfGF(this) && 0 <= a && a < this.size
+//@   ensures (a == 0) == (e != nil)
+//@   ensures a != 0 ==> r == this.expTable[this.size - this.logTable[a] - 1] && 0 <= r && r < this.size
+//@   modifies nothing
+
+//@ func (this *GenericGF) Exp(a int) (r int)
+//@   property C04
+//@   requires wfGF(this) && 0 <= a && a < this.size
+//@   ensures r == this.expTable[a]
+//@   modifies nothing
+
+//@ func (this *GenericGF) Log(a int) (r int, e error)
+//@   property C04
+//@   requires wfGF(this) && 0 <= a && a < this.size
+//@   ensures (a == 0) == (e != nil)
+//@   ensures a != 0 ==> r == this.logTable[a]
+//@   modifies nothing
+
+//@ func GenericGF_addOrSubtract(a int, b int) (r int)
+//@   property C04
+//@   mode bv
+//@   ensures r == a ^ b
+//@   modifies nothing
+
+// ---------------------------------------------------------------- table multiplication == polynomial multiplication mod p (small fields, all pairs)
+// mulp: shift-and-add (carry-less) multiplication of a by the low k+1.. bits of b, reduced on the fly by xtime
+//@ spec func mulp(a int, b int, p int, n int, k int) int = k <= 0 ? 0 : ((b & 1 == 1 ? a : 0) ^ mulp(xtime(a, p, n), b >> 1, p, n, k - 1))
+
+//@ lemma mulAgree4(a int, b int)
+//@   property C04
+//@   globals GenericGF_AZTEC_PARAM
+//@   mode bv
+//@   opt fuel=6
+//@   proof cases a 0 15, b 0 15
+//@   ensures tmul(GenericGF_AZTEC_PARAM, a, b) == mulp(a, b, 0x13, 16, 4)
+//@ lemma mulAgree6(a int, b int)
+//@   property C04
+//@   globals GenericGF_AZTEC_DATA_6
+//@   mode bv
+//@   opt fuel=8
+//@   proof cases a 0 63, b 0 63
+//@   ensures tmul(GenericGF_AZTEC_DATA_6, a, b) == mulp(a, b, 0x43, 64, 6)
+// a * inverse(a) == 1 in every field (all elements)
+//@ lemma fieldInv12(x int)
+//@   property C04
+//@   globals GenericGF_AZTEC_DATA_12
+//@   mode bv
+//@   proof cases x 1 4095
+//@   let f = GenericGF_AZTEC_DATA_12
+//@   ensures tmul(f, x, f.expTable[f.size - f.logTable[x] - 1]) == 1
+//@ lemma fieldInv10(x int)
+//@   property C04
+//@   globals GenericGF_AZTEC_DATA_10
+//@   mode bv
+//@   proof cases x 1 1023
+//@   let f = GenericGF_AZTEC_DATA_10
+//@   ensures tmul(f, x, f.expTable[f.size - f.logTable[x] - 1]) == 1
+//@ lemma fieldInv6(x int)
+//@   property C04
+//@   globals GenericGF_AZTEC_DATA_6
+//@   mode bv
+//@   proof cases x 1 63
+//@   let f = GenericGF_AZTEC_DATA_6
+//@   ensures tmul(f, x, f.expTable[f.size - f.logTable[x] - 1]) == 1
+//@ lemma fieldInv4(x int)
+//@   property C04
+//@   globals GenericGF_AZTEC_PARAM
+//@   mode bv
+//@   proof cases x 1 15
+//@   let f = GenericGF_AZTEC_PARAM
+//@   ensures tmul(f, x, f.expTable[f.size - f.logTable[x] - 1]) == 1
+//@ lemma fieldInvQR(x int)
+//@   property C04
+//@   globals GenericGF_QR_CODE_FIELD_256
+//@   mode bv
+//@   proof cases x 1 255
+//@   let f = GenericGF_QR_CODE_FIELD_256
+//@   ensures tmul(f, x, f.expTable[f.size - f.logTable[x] - 1]) == 1
+//@ lemma fieldInvDM(x int)
+//@   property C04
+//@   globals GenericGF_DATA_MATRIX_FIELD_256
+//@   mode bv
+//@   proof cases x 1 255
+//@   let f = GenericGF_DATA_MATRIX_FIELD_256
+//@   ensures tmul(f, x, f.expTable[f.size - f.logTable[x] - 1]) == 1
+
+// the two 256-element fields, all 65536 pairs each (thorough tier only)
+//@ lemma mulAgreeQR(a int, b int)
+//@   property C04
+//@   opt tier=thorough
+//@   globals GenericGF_QR_CODE_FIELD_256
+//@   mode bv
+//@   opt fuel=10
+//@   proof cases a 0 255, b 0 255
+//@   ensures tmul(GenericGF_QR_CODE_FIELD_256, a, b) == mulp(a, b, 0x11D, 256, 8)
+//@ lemma mulAgreeDM(a int, b int)
+//@   property C04 C08
+//@   opt tier=thorough
+//@   globals GenericGF_DATA_MATRIX_FIELD_256
+//@   mode bv
+//@   opt fuel=10
+//@   proof cases a 0 255, b 0 255
+//@   ensures tmul(GenericGF_DATA_MATRIX_FIELD_256, a, b) == mulp(a, b, 0x12D, 256, 8)
